@@ -29,8 +29,12 @@ def misuse(prog) -> set[str]:
     kinds = set()
     state = {}
     nf = 0
+    from harness.runtime_sim import eff_pids
     for ins in prog:
         op = ins[0]
+        if op == 'm' and not eff_pids(ins):
+            kinds.add('map-empty')      # RuntimeError('Unable to map 0 tasks.')
+            break                       # the body dies here
         if op in 'sm':
             state[nf] = 'open'
             nf += 1
@@ -47,6 +51,9 @@ def misuse(prog) -> set[str]:
             state[ins[1]] = 'gone'
         elif op == 'x':
             kinds.add('dsl-raise')
+            break
+        elif op == 'r':
+            break
     return kinds
 
 
@@ -55,12 +62,10 @@ def reachable(table, pid, acc=None):
     if pid in acc:
         return acc
     acc.add(pid)
+    from harness.runtime_sim import children
     for ins in table[pid]:
-        if ins[0] == 's':
-            reachable(table, ins[1], acc)
-        elif ins[0] == 'm':
-            for p in ins[1]:
-                reachable(table, p, acc)
+        for p in children(ins):
+            reachable(table, p, acc)
     return acc
 
 
@@ -71,6 +76,8 @@ def classify_error(text: str) -> str:
         return 'await-gone'
     if 'Cannot wait on an already completed result' in text:
         return 'next-gone'
+    if 'Unable to map 0 tasks' in text:
+        return 'map-empty'
     m = re.findall(r'^(\w+(?:Error|Exception|Exit|Interrupt))\b', text, re.M)
     cls = m[-1] if m else 'Unknown'
     if cls == 'KeyError' and 'in cancel' in text:
@@ -78,9 +85,39 @@ def classify_error(text: str) -> str:
     return cls
 
 
+def gen_shape_submit(rng: random.Random):
+    r = rng.random()
+    return None if r < 0.7 else 'kw' if r < 0.85 else 'named'
+
+
+def gen_shape_map(rng: random.Random, n: int, style: str):
+    """Every argument shape Worker.map accepts: equal lists, lists of different
+    lengths (zip: the shortest decides), one packed list, keyword arguments,
+    task_name / log_context lists; in the malformed style also no task at all."""
+    r = rng.random()
+    if style == 'malformed' and r < 0.12:
+        return rng.choice([('z', 0, n), ('z', n + 1, 0), ('zn', 0, 0)])
+    if r < 0.45:
+        return None
+    if r < 0.60:      # first list longer than the shortest
+        return (rng.choice(['z', 'z', 'zn']), n + rng.randint(1, 3),
+                rng.choice([n, n, n + 1, max(1, n - 1)]))
+    if r < 0.70:      # first list is the shortest
+        return (rng.choice(['z', 'zn']), max(1, n - rng.randint(0, 2)),
+                n + rng.randint(0, 2))
+    if r < 0.78:      # last list is the shortest
+        return ('z', n + rng.randint(0, 2), max(1, n - rng.randint(1, 2)))
+    if r < 0.86:
+        return ('one',)
+    if r < 0.93:
+        return ('kw',)
+    return ('named',)
+
+
 def gen_prog(rng: random.Random, table: list, depth: int, style: str,
-             budget: list) -> int:
+             budget: list, preempt: float = 0.0) -> int:
     """Appends a random program (children first) and returns its pid."""
+    from harness.runtime_sim import eff_pids
     futs = []
     if depth > 0 and budget[0] > 0:
         nf = rng.choice([0, 1, 1, 2, 2, 3])
@@ -90,20 +127,25 @@ def gen_prog(rng: random.Random, table: list, depth: int, style: str,
             cstyle = style if rng.random() < 0.8 else 'clean'
             if rng.random() < 0.5:
                 budget[0] -= 1
-                futs.append(('s', gen_prog(rng, table, depth - 1, cstyle,
-                                           budget)))
+                pid = gen_prog(rng, table, depth - 1, cstyle, budget, preempt)
+                sh = gen_shape_submit(rng)
+                futs.append(('s', pid) if sh is None else ('s', pid, sh))
             else:
                 n = rng.randint(1, 4)
                 budget[0] -= n
                 kids = []
-                proto = gen_prog(rng, table, depth - 1, cstyle, budget)
+                proto = gen_prog(rng, table, depth - 1, cstyle, budget,
+                                 preempt)
                 for i in range(n):
                     kids.append(proto if rng.random() < 0.6 else gen_prog(
-                        rng, table, max(depth - 2, 0), cstyle, budget))
-                futs.append(('m', tuple(kids)))
+                        rng, table, max(depth - 2, 0), cstyle, budget,
+                        preempt))
+                sh = gen_shape_map(rng, n, style)
+                futs.append(('m', tuple(kids)) if sh is None
+                            else ('m', tuple(kids), sh))
     plans = []
     for f in futs:
-        n = 1 if f[0] == 's' else len(f[1])
+        n = 1 if f[0] == 's' else len(eff_pids(f))
         r = rng.random()
         if style == 'clean':
             plan = ['a']
@@ -144,6 +186,17 @@ def gen_prog(rng: random.Random, table: list, depth: int, style: str,
         prog.insert(rng.randint(0, len(prog)), ('x',))
     if style == 'unawaited' and rng.random() < 0.15:
         prog.insert(rng.randint(0, len(prog)), ('r',))
+    if preempt:
+        # the worker's main thread can be preempted in the middle of a step:
+        # before / between / after the calls into the runtime
+        out = []
+        for ins in prog:
+            if rng.random() < preempt:
+                out.append(('y',))
+            out.append(ins)
+        if rng.random() < preempt:
+            out.append(('y',))
+        prog = out
     table.append(tuple(prog))
     return len(table) - 1
 
@@ -167,6 +220,10 @@ def gen_scenario(rng: random.Random, flavour: str | None = None) -> dict:
         ncl = rng.choice([1, 1, 2])
     table: list = []
     clients = []
+    # a third of the scenarios preempt worker steps (finer than handler-level
+    # atomicity; these runs are judged by the oracles only once a transition
+    # really ran inside a step)
+    preempt = rng.choice([0.0, 0.0, 0.25, 0.5]) if rng.random() < 0.65 else 0.0
     for j in range(ncl):
         script = []
         nsub = rng.choice([1, 1, 2, 3])
@@ -175,7 +232,7 @@ def gen_scenario(rng: random.Random, flavour: str | None = None) -> dict:
             style = rng.choice(STYLES)
             depth = rng.choice([1, 2, 2, 3])
             roots.append(gen_prog(rng, table, depth, style,
-                                  [rng.choice([4, 8, 14])]))
+                                  [rng.choice([4, 8, 14])], preempt))
         ops = [('submit', p) for p in roots]
         later = []
         for i in range(nsub):
@@ -362,6 +419,7 @@ def evaluate(sim, quiescent: bool, st: dict, V: Verdicts) -> dict:
                 pid_of[tag + (k, i)] = p
     tag_of = {a: t for t, a in addr_of.items()}
     box_owner = {(w, m): tag for (tag, k), (w, m, _) in spawn.items()}
+    spawn_t = {(e[4], e[5]): e[0] for e in ev if e[1] == 'spawn'}
 
     def lineage(tag):
         out = []
@@ -458,6 +516,18 @@ def evaluate(sim, quiescent: bool, st: dict, V: Verdicts) -> dict:
             V.add('C07', f'unexpected-error:{cls}',
                   f'{w} sent an ERROR ({cls}) that no task body raised: '
                   f'...{txt[-300:]}', t)
+            # C12 (cancelling disturbs nothing else): the compilation was not
+            # cancelled by its client, one of its tasks cancelled a future,
+            # and now the client of the compilation is told about an error
+            # that no body raised
+            if ci is not None and ci not in st['client_cancel_processed'] \
+                    and any(tt <= t and tag_of.get(a, (None,))[0] == ci
+                            for a, tt in C.items()):
+                V.add('C12', f'error-reaches-uncancelled-compilation:{cls}',
+                      f'{w} sent an ERROR ({cls}) for compilation {ci}, which '
+                      f'was not cancelled: a task of it cancelled a future and '
+                      f'the tear-down of the cancelled work raised an error no '
+                      f'task body raised: ...{txt[-300:]}', t)
     for (t, kind, detail) in sim.anomalies:
         V.add('C07', f'{kind}:{detail[1]}', f'{detail}', t)
     for (t, node, txt) in sim.syserr:
@@ -505,13 +575,17 @@ def evaluate(sim, quiescent: bool, st: dict, V: Verdicts) -> dict:
                 ref is not None)
     # ----------------------------------------------------------------- C12
     # (3) no body activity after the worker processed a CANCEL of its lineage
-    for e in ev:
+    for ei, e in enumerate(ev):
         if e[1] in ('start', 'saw', 'ret'):
             t, kind, tag = e[0], e[1], e[2]
             wid = e[4] if kind in ('start', 'ret') else e[6]
             proc = st['processed'].get(wname.get(wid), {})
+            # a step that was already running when the incoming thread
+            # processed the CANCEL cannot be stopped: only steps that START
+            # afterwards count
+            t_step = sim.ev_step[ei]
             for a in lineage(tag):
-                if a in proc and proc[a] < t:
+                if a in proc and proc[a] < t_step:
                     V.add('C12', 'descendant-started-after-cancel'
                           if kind == 'start' else 'cancelled-task-stepped',
                           f'task {tag} ({kind}) ran on worker {wid} at t={t} '
@@ -520,12 +594,13 @@ def evaluate(sim, quiescent: bool, st: dict, V: Verdicts) -> dict:
                     break
     # (2) awaiting a cancelled future fails
     cancels = {}
-    for e in ev:
+    rec_of = {r['t']: r for r in sim.translog}
+    for ei, e in enumerate(ev):
         if e[1] == 'cancel':
             cancels.setdefault((e[2], e[3]), e[0])
         elif e[1] == 'await' and (e[2], e[3]) in cancels:
             t = e[0]
-            rec = sim.translog[t - 1]
+            rec = rec_of[sim.ev_step[ei]]
             from bqskit.runtime.message import RuntimeMessage as M
             if not any(mm[0] == M.ERROR for _, _, mm in rec['emitted']) \
                     and not cancelled_at(e[2], t):
@@ -624,9 +699,22 @@ def evaluate(sim, quiescent: bool, st: dict, V: Verdicts) -> dict:
                           f'owner {owner} completed without awaiting it and '
                           f'the completion-time clean-up skipped it', sim.t)
                 elif cancelled_at(owner) or (kid and cancelled_at(kid)):
-                    V.add('C12', 'leak:worker._mailboxes', f'{n.name} still '
-                          f'holds mailbox {m} of cancelled work (owner '
-                          f'{owner})', sim.t)
+                    # created by a task AFTER this worker's incoming thread
+                    # processed the CANCEL of the task's lineage (the task was
+                    # in the middle of a step and went on)?
+                    proc = st['processed'].get(n.name, {})
+                    ts = spawn_t.get((n.wid, m), 0)
+                    zombie = any(x in proc and proc[x] < ts
+                                 for x in lineage(owner))
+                    V.add('C12', 'leak:worker._mailboxes'
+                          + (':created-after-midstep-cancel' if zombie
+                             else ''),
+                          f'{n.name} still holds mailbox {m} of cancelled '
+                          f'work (owner {owner})' + (
+                              ': the owner was cancelled in the middle of a '
+                              'step (CANCEL handled by the incoming thread) '
+                              'and created this future afterwards; nothing '
+                              'ever removes it' if zombie else ''), sim.t)
             if w._ready_task_ids.qsize():
                 V.add('C12', 'leak:worker._ready_task_ids', f'{n.name} ready '
                       'queue not empty at idle', sim.t)
@@ -1149,6 +1237,14 @@ def extra_c07(ck: Check):
 
 # ------------------------------------------- exhaustive delivery orders (small)
 SMALL_TREES = {
+    # a parent cancels its direct child; the child owns a future and awaits
+    # it; its step can be preempted between the submit and the await (the
+    # CANCEL can arrive before the child starts, in the middle of its step,
+    # while it waits, after it finished)
+    'child-cancelled-at-any-point': (
+        (), (('s', 0), ('y',), ('a', 0)), (('s', 1), ('c', 0))),
+    # map over argument lists of different lengths
+    'map-zip-await': ((), (('m', (0, 0, 0), ('z', 3, 2)), ('a', 0))),
     'submit-await': ((), (('s', 0), ('a', 0))),
     'map2-await': ((), (('m', (0, 0)), ('a', 0))),
     'two-submits-reversed': ((), (('s', 0), ('s', 0), ('a', 1), ('a', 0))),
@@ -1174,13 +1270,16 @@ def small_scenarios(which='all'):
                                  'table': table, 'clients': [script]}))
     if which == 'quick':
         keep = ('submit-await/detached1/result', 'submit-cancel/detached1/result',
-                'submit-await/detached1/cancel')
+                'submit-await/detached1/cancel',
+                'child-cancelled-at-any-point/detached1/result',
+                'map-zip-await/attached1/result')
         out = [x for x in out if x[0] in keep]
     return out
 
 
-def _global_key(sim, rec):
+def _global_key(sim, rec, paused=()):
     parts = [rec.s_state(n) for n in sim.nodes if sim.nodes[n].kind != 'C']
+    parts.append('paused:' + repr(list(paused)))
     for (a, b), q in sorted(sim.chan.items()):
         parts.append(f'{a}>{b}:' + '|'.join(rec.s_msg(a, b, m) for m in q))
     for n in sim.nodes.values():
@@ -1214,11 +1313,22 @@ def exhaustive(scenario, seed, limit):
         V = Verdicts()
         st = new_state()
         rec = rm.Recorder(sim, scenario)
+        stop = {}
+
+        def on_stop(s_):
+            # the prefix ends while a worker step is preempted: take the
+            # state and the enabled set now (the step is unwound afterwards)
+            stop['key'] = _global_key(s_, rec, s_.paused)
+            stop['en'] = s_.enabled()
+        sim.on_stop = on_stop
         sim.run(schedule=prefix, max_steps=len(prefix) + 1,
                 after=lambda s, r: check_step(s, r, V, st))
         stats['replays'] += 1
-        key = _global_key(sim, rec)
-        en = sim.enabled()
+        if stop:
+            key, en = stop['key'], stop['en']
+        else:
+            key = _global_key(sim, rec)
+            en = sim.enabled()
         if key in seen:
             sim.dispose()
             continue
